@@ -19,7 +19,7 @@ use crate::util::*;
 pub const PROP: Prop = Prop {
     id: "C17",
     level: "exploration",
-    rule: "byte inputs built as context x payload: 18 contexts (symbol, symbol-initial, keyword, R6RS and Emacs strings with escapes before/after the payload, #\\ and ? characters, comments, inside lists and vectors) x every 1- and 2-byte payload (exhaustive), every 3-byte payload with a lead >= 0x80 (thorough), structured 4-byte classes (valid, overlong, > U+10FFFF, F5-FF leads, truncated at each length, surrogates); plus string literals assembled from escape pieces, printed/mutated/random inputs through from_str (valid UTF-8 only), from_slice and from_reader, value and datum API; output side: to_string_custom vs to_vec_custom for generated values x all 576 printer option sets. Oracle: every str reachable from a returned value passes str::from_utf8 (the verif-hooks feature additionally asserts validity at each from_utf8_unchecked site); a payload of bytes >= 0x80 that is not valid UTF-8 inside a symbol, keyword, string or character makes the parse fail, inside a comment it is skipped; a valid payload arrives unchanged. non-trivial = the input contains a byte >= 0x80 or an escape producing one; distinct by digest of (input, options)",
+    rule: "(every input is parsed one-shot AND iterated past errors with both APIs from all three sources, every yielded item checked; five contexts place the payload directly after an error that consumes a single byte, so that iteration resumes inside a character) byte inputs built as context x payload: 18 contexts (symbol, symbol-initial, keyword, R6RS and Emacs strings with escapes before/after the payload, #\\ and ? characters, comments, inside lists and vectors) x every 1- and 2-byte payload (exhaustive), every 3-byte payload with a lead >= 0x80 (thorough), structured 4-byte classes (valid, overlong, > U+10FFFF, F5-FF leads, truncated at each length, surrogates); plus string literals assembled from escape pieces, printed/mutated/random inputs through from_str (valid UTF-8 only), from_slice and from_reader, value and datum API; output side: to_string_custom vs to_vec_custom for generated values x all 576 printer option sets. Oracle: every str reachable from a returned value passes str::from_utf8 (the verif-hooks feature additionally asserts validity at each from_utf8_unchecked site); a payload of bytes >= 0x80 that is not valid UTF-8 inside a symbol, keyword, string or character makes the parse fail, inside a comment it is skipped; a valid payload arrives unchanged. non-trivial = the input contains a byte >= 0x80 or an escape producing one; distinct by digest of (input, options)",
     assumptions: &[
         "validity is checked with std::str::from_utf8 on the bytes of every returned str, and by the hook assertions at creation time; no memory model is involved",
     ],
@@ -67,6 +67,13 @@ const CONTEXTS: &[Context] = &[
     Context { name: "elisp-string-after-hex", pre: b"\"\\x41\\ ", post: b"z\"", in_token: true, verbatim: None, elisp: true },
     Context { name: "elisp-string-uni-escape", pre: b"\"\\u00e9", post: b"\\N{U+3bb}\"", in_token: true, verbatim: Some("string"), elisp: true },
     Context { name: "elisp-char", pre: b"?", post: b"", in_token: true, verbatim: None, elisp: true },
+    // an error that consumes only the first byte of the payload: an iterating
+    // caller continues in the middle of a character
+    Context { name: "after-hash", pre: b"(a) #", post: b"a b", in_token: true, verbatim: None, elisp: false },
+    Context { name: "after-hash-in-list", pre: b"(#", post: b"a: b)", in_token: true, verbatim: None, elisp: false },
+    Context { name: "after-string-escape", pre: b"\"\\", post: b"a\" b", in_token: true, verbatim: None, elisp: false },
+    Context { name: "after-elisp-char-escape", pre: b"?\\^", post: b"a b", in_token: true, verbatim: None, elisp: true },
+    Context { name: "after-close-paren", pre: b")", post: b"a b", in_token: true, verbatim: None, elisp: false },
 ];
 
 fn strs_valid(v: &Value, bad: &mut Option<String>) {
@@ -135,6 +142,55 @@ pub fn check_case(c: &Case) -> CaseResult {
     results.push(("slice-datum", catch(|| lexpr::datum::from_slice_custom(&c.input, opts).map(Value::from))));
     results.push(("reader", catch(|| lexpr::from_reader_custom(Cursor::new(&c.input[..]), opts))));
     results.push(("reader-datum", catch(|| lexpr::datum::from_reader_custom(Cursor::new(&c.input[..]), opts).map(Value::from))));
+    // iterated parsing continues after errors, possibly in the middle of a
+    // multi-byte character whose lead byte the error consumed: every item of
+    // every stream has to be well-formed too
+    {
+        let cap = c.input.len() + 2;
+        macro_rules! iterate {
+            ($name:expr, $mk:expr, $datum:expr) => {{
+                let r = catch(|| {
+                    let mut p = $mk;
+                    let mut bad: Option<String> = None;
+                    for _ in 0..cap {
+                        let item = if $datum { p.next_datum().map(|o| o.map(Value::from)) } else { p.next_value() };
+                        match item {
+                            Ok(Some(v)) => strs_valid(&v, &mut bad),
+                            Ok(None) => break,
+                            Err(_) => {}
+                        }
+                        if bad.is_some() {
+                            break;
+                        }
+                    }
+                    bad
+                });
+                match r {
+                    Err(pm) => {
+                        return Err(fail(
+                            format!("src={} panic={} payload={}", $name, panic_sig(&pm), payload_class),
+                            format!("{} panicked: {}", $name, pm),
+                        ))
+                    }
+                    Ok(Some(b)) => {
+                        return Err(fail(
+                            format!("src={} ill-formed-str payload={}", $name, payload_class),
+                            format!("{} yielded a str that is not well-formed UTF-8: {:?}", $name, b),
+                        ))
+                    }
+                    Ok(None) => {}
+                }
+            }};
+        }
+        if let Some(s) = whole_valid {
+            iterate!("str-iter", lexpr::Parser::from_str_custom(s, opts), false);
+            iterate!("str-datum-iter", lexpr::Parser::from_str_custom(s, opts), true);
+        }
+        iterate!("slice-iter", lexpr::Parser::from_slice_custom(&c.input, opts), false);
+        iterate!("slice-datum-iter", lexpr::Parser::from_slice_custom(&c.input, opts), true);
+        iterate!("reader-iter", lexpr::Parser::from_reader_custom(Cursor::new(&c.input[..]), opts), false);
+        iterate!("reader-datum-iter", lexpr::Parser::from_reader_custom(Cursor::new(&c.input[..]), opts), true);
+    }
     let mut any_ok = false;
     for (src, r) in &results {
         match r {
@@ -357,4 +413,28 @@ fn replay(_sub: &str, case: &Json) -> Option<CaseResult> {
     }
     let mv: MV = serde_json::from_value(case.get("value")?.clone()).ok()?;
     Some(check_output(&mv, case.get("p")?.as_u64()? as usize))
+}
+
+/// libFuzzer entry: raw bytes (mode % 3 == 0), a generated input, or a printed value.
+pub fn fuzz(f: &mut FuzzIn) -> Option<CaseResult> {
+    match f.mode % 3 {
+        0 => {
+            let (q, input) = f.raw_q_input();
+            if input.len() > 300 {
+                return None;
+            }
+            Some(check_case(&Case { input: input.to_vec(), q, ctx: 255, payload: Vec::new() }))
+        }
+        1 => {
+            let (input, q) = f.draw(&(prop_oneof![3 => g_string_literal(), 2 => g_input(200).prop_map(|(b, _)| b)], g_qopt_index()))?;
+            Some(check_case(&Case { input, q, ctx: 255, payload: Vec::new() }))
+        }
+        _ => {
+            if f.raw.len() < 2 {
+                return None;
+            }
+            let pi = u16::from_le_bytes([f.raw[0], f.raw[1]]) as usize % N_POPT;
+            Some(check_output(&f.mv(2, ValueCfg::default_dialect(3, 20), 4), pi))
+        }
+    }
 }
